@@ -68,6 +68,18 @@ DedupSeq(q) ==
            x == q[Len(q)]
        IN IF x \in SeqToSet(r) THEN r ELSE Append(r, x)
 
+(* deterministic enumeration of a finite set *)
+RECURSIVE SetToSortedSeq(_)
+SetToSortedSeq(S) ==
+  IF S = {} THEN <<>>
+  ELSE LET m == CHOOSE x \in S : \A y \in S : x = y \/ LruLess(x, y) \/ (~LruLess(y, x) /\ Len(x) <= Len(y))
+       IN <<m>> \o SetToSortedSeq(S \ {m})
+
+(* the RAM rule table: function anchor LRU -> rule *)
+EmptyRam == [a \in {} |-> 0]
+RamSet(ram, anchor, rule) == [a \in DOMAIN ram \cup {anchor} |-> IF a = anchor THEN rule ELSE ram[a]]
+RamDel(ram, anchor) == [a \in DOMAIN ram \ {anchor} |-> ram[a]]
+
 (***************************************************************************)
 (* Variations (what property C17 demands of helpers.lru_variations).       *)
 (* Shape of an LRU: scheme stem, optional port stem, a run of host stems,  *)
